@@ -47,6 +47,8 @@ theorem mAfterFlag_len (s : St) : (mAfterFlag s).procDict.length ≤ s.procDict.
   | zero => rfl
   | succ n ih => unfold mAddFuel; (repeat' split) <;> first | rfl | simp [*]
 @[simp] theorem spawningM_mAdd (s : St) : spawningM (mAdd s).mpc = false := by unfold mAdd; simp
+@[simp] theorem spawningM_mAddF (s : St) : spawningM (mAddF s).mpc = false := by
+  rcases mAddF_mpc s with ⟨i, _, h⟩ | ⟨_, h, _⟩ | ⟨_, h, _⟩ <;> rw [h] <;> rfl
 @[simp] theorem spawningM_mJoinStart (s : St) : spawningM (mJoinStart s).mpc = false := rfl
 @[simp] theorem spawningM_mKillNext (s : St) : spawningM (mKillNext s).mpc = false := by
   unfold mKillNext; split <;> rfl
